@@ -6,13 +6,15 @@ from ..leandrv import Driver
 MODULE = 'Bluebell.Props.C03'
 THEOREMS = ['Bluebell.C03_merge_keeps_text', 'Bluebell.C03_normalise_keeps_text', 'Bluebell.C03_unreferenced_block_keeps_text', 'Bluebell.C03_eids_titles_keep_text', 'Bluebell.C03_examples', 'Bluebell.C03_xml_building_keeps_text',
             'Bluebell.C03_plain_line_is_its_text', 'Bluebell.C03_ordinary_first_chars', 'Bluebell.line_of_plain']
-TOKEN = re.compile('w\\d+|ש\\d+ם|ب\\d+ت|\U00010348\\d+\U0001F600|ж\\d+я')
+TOKEN = re.compile('w\\d+|ש\\d+ם|ب\\d+ت|\U00010348\\d+\U0001F600|ж\\d+я|\u212b\\d+e\u0301')
 SKIP_ATTRS = {'eId', 'by'}
+ATTR_TOKENS = set()   # words found in attribute values by the last out_tokens call (no document order among them)
 
 
 def out_tokens(tree):
     """(tokens outside authorial notes in document order, tokens inside notes) of the body"""
     main, notes = [], []
+    ATTR_TOKENS.clear()
 
     def rec(n, in_note):
         if n[0] == 'meta':
@@ -21,6 +23,7 @@ def out_tokens(tree):
         for k, v in n[1].items():
             if k not in SKIP_ATTRS:
                 dst.extend(TOKEN.findall(v))
+                ATTR_TOKENS.update(TOKEN.findall(v))
         for k in n[2]:
             if isinstance(k, str):
                 dst.extend(TOKEN.findall(k))
@@ -51,7 +54,8 @@ def violation(text, root):
     extra = [t for t in got if t not in ws]
     if extra:
         return f'invented words {extra[:5]}'
-    ns = set(notes)
+    ns = set(notes) | set(ATTR_TOKENS)   # the order clause is about text; words inside one attribute value have no document order
+    main = [t for t in main if t not in ATTR_TOKENS]
     if main != [t for t in want if t not in ns]:
         a = [t for t in want if t not in ns]
         i = next(i for i, (x, y) in enumerate(zip(main, a)) if x != y)
@@ -61,7 +65,7 @@ def violation(text, root):
     refs = Counter(re.findall(r'\{\{FOOTNOTE ([^ \n}]+)\}\}', text))
     # a FOOTNOTE line is a block only if indented content follows it
     blocks = Counter()
-    ls = text.replace('\t', '  ').split('\n')
+    ls = text.replace('\t', '  ').strip().split('\n')   # pre_parse strips the text first: the first line's own indentation does not count
     for i, l in enumerate(ls):
         m = re.match(r'^( *)FOOTNOTE +([^ \n]+) *$', l)
         if m:
@@ -95,6 +99,21 @@ def violation(text, root):
     return None
 
 
+EMPTY_WITH_ATTRS = re.compile(r'^([ \t]*(?:PREFACE|PREAMBLE|CONCLUSIONS|CROSSHEADING|LONGTITLE))((?:\.[^ \n.{]*)*(?:\{[^\n}]*\})?)[ \t]*$', re.M)
+
+
+def classify(text, root):
+    """F46: the only words that go missing are attribute values written on a bare PREFACE / PREAMBLE / CONCLUSIONS /
+    CROSSHEADING / LONGTITLE line; normalise removes the empty element and its attributes with it. Causal: the same
+    text with the attribute part of those lines deleted has no violation."""
+    if not any(TOKEN.search(m.group(2)) for m in EMPTY_WITH_ATTRS.finditer(text)):
+        return None
+    t2 = EMPTY_WITH_ATTRS.sub(lambda m: m.group(1) if TOKEN.search(m.group(2)) else m.group(0), text)
+    if t2 != text and violation(t2, root) is None:
+        return 'F46'
+    return None
+
+
 def cases(ctx, n):
     rng = ctx.rng
     out = []
@@ -115,21 +134,33 @@ def run(ctx, info):
     e2e.tie_convert(ctx, drv, cs, failures)
     nb = 0
     ntok = 0
+    known = {}
     for t, root, _ in cs:
         ntok += len(TOKEN.findall(t))
         v = violation(t, root)
         if v:
+            fid = classify(t, root)
+            if fid:
+                known[fid] = known.get(fid, 0) + 1
+                if known[fid] == 1:
+                    failures.append({'kind': 'oracle', 'finding': fid, 'summary': f'{t[:120]!r} ({root}): {v}', 'case': {'text': t, 'root': root}})
+                continue
             nb += 1
             if len(failures) < 20:
-                small = core.shrink_text(t, lambda tt, root=root: violation(tt, root) is not None, 200) if nb <= 3 else t
+                small = core.shrink_text(t, lambda tt, root=root, v=v: violation(tt, root) == v and classify(tt, root) is None, 200) if nb <= 3 else t   # same words lost / duplicated / invented
                 failures.append({'kind': 'oracle', 'finding': None, 'summary': f'{small[:120]!r} ({root}): {violation(small, root) or v}', 'case': {'text': small, 'root': root}})
-    ctx.oblige('oracle: every payload word appears exactly once, in order (footnote content moved to its reference)', 'oracle', nb == 0,
-               f'{nb} violations in {len(cs)} documents, {ntok} payload words')
+    ctx.oblige('oracle: every payload word appears exactly once, in order (footnote content moved to its reference; outside listed findings)', 'oracle', nb == 0,
+               f'{nb} unlisted violations in {len(cs)} documents, {ntok} payload words; listed classes hit {known}')
     cov = {'evaluations': len(cs), 'distinct_nontrivial': len({t for t, r, p in cs if len(TOKEN.findall(t)) > 3}), 'payload_words': ntok,
-           'rule': 'generated documents over the documented vocabulary whose payload words are distinct tokens (ASCII, Hebrew, Arabic, Cyrillic, astral), corner constructs, seven roots; non-trivial = distinct document with more than three payload words',
+           'rule': 'generated documents over the documented vocabulary whose payload words are distinct tokens (ASCII, Hebrew, Arabic, Cyrillic, astral, non-NFC), corner constructs, seven roots; non-trivial = distinct document with more than three payload words',
            'samples': [{'text': cs[0][0][:300], 'root': cs[0][1]}]}
     return {'coverage': cov, 'failures': failures,
             'assumptions': ['markup = keywords in keyword position, marker punctuation, attribute syntax, escaping backslashes; payload = the generator\'s word tokens']}
+
+
+def witness_fails(ctx, finding):
+    w = finding['witness']
+    return violation(w['text'], w['root']) is not None and classify(w['text'], w['root']) == finding['id']
 
 
 def replay(ctx, rep):
